@@ -1,6 +1,7 @@
 package harness
 
 import (
+	"sort"
 	"encoding/json"
 	"fmt"
 	"strconv"
@@ -403,6 +404,11 @@ type qsClause struct {
 	Q      *Q
 }
 
+// keyword values made of ordinary letters and the characters the query-string syntax reserves
+var c17SpecialWords = []string{"C:\\temp", "a:b", "a+b", "a-b", "a b", "x\\y", "1/2", "a\"b", "(a)", "a~1", "a^2", "q?", "s*"}
+
+var c17LiveSpecials []string
+
 func genQSClause(t *rapid.T) qsClause {
 	c := qsClause{Prefix: rapid.SampledFrom([]string{"", "", "+", "-"}).Draw(t, "prefix")}
 	field := rapid.SampledFrom([]string{"t", "t", "k", ""}).Draw(t, "field")
@@ -413,7 +419,22 @@ func genQSClause(t *rapid.T) qsClause {
 		qf = field
 	}
 	w := func() string { return rapid.SampledFrom(Vocab).Draw(t, "w") }
-	switch rapid.IntRange(0, 9).Draw(t, "clause") {
+	switch rapid.IntRange(0, 10).Draw(t, "clause") {
+	case 10:
+		// a keyword value with characters of the syntax, each escaped with a backslash
+		pool := c17SpecialWords
+		if len(c17LiveSpecials) > 0 && rapid.IntRange(0, 3).Draw(t, "liveSpecial") != 0 {
+			pool = c17LiveSpecials // values some live document of the corpus actually holds
+		}
+		x := rapid.SampledFrom(pool).Draw(t, "special")
+		var esc strings.Builder
+		for _, r := range x {
+			if strings.ContainsRune("+-=&|><!(){}[]^\"~*?:\\/ ", r) {
+				esc.WriteByte('\\')
+			}
+			esc.WriteRune(r)
+		}
+		c.Text, c.Q = "k:"+esc.String(), &Q{Kind: "match", Field: "k", Text: x}
 	case 0, 1, 2:
 		x := w()
 		c.Text, c.Q = scope+x, &Q{Kind: "match", Field: qf, Text: x}
@@ -476,7 +497,20 @@ func genQSClause(t *rapid.T) qsClause {
 func TestC17QueryStringGrammar(t *testing.T) {
 	ev := Ev("C17")
 	checkPropN(t, "C17", 500, func(t *rapid.T) {
-		c := BuildCorpus(t, CorpusOpts{Engines: []string{EngScorchMem, EngUDGtreap}, MaxSteps: 5, Mapping: c17Mapping, Doc: DocGenOpts{Nums: SmallNums, Dates: wholeSecondDates}})
+		c := BuildCorpus(t, CorpusOpts{Engines: []string{EngScorchMem, EngUDGtreap}, MaxSteps: 5, Mapping: c17Mapping, Doc: DocGenOpts{Nums: SmallNums, Dates: wholeSecondDates, KWords: append(append([]string{}, Vocab...), c17SpecialWords...)}})
+		c17LiveSpecials = nil
+		for _, id := range c.Model.LiveIDs() {
+			if f := c.Model.Docs[id]["k"]; f != nil {
+				for _, v := range f.S {
+					for _, sp := range c17SpecialWords {
+						if v == sp {
+							c17LiveSpecials = append(c17LiveSpecials, v)
+						}
+					}
+				}
+			}
+		}
+		sort.Strings(c17LiveSpecials)
 		n := rapid.IntRange(1, 4).Draw(t, "nclauses")
 		var parts []string
 		bq := &Q{Kind: "boolean"}
